@@ -43,6 +43,11 @@ ScenKey ==
          \* clear_config by what there was to clear: every combination of empty / non-empty stores before the call
          IF out.op = "Clear" THEN <<"clear", out.clearConstants, out.had, Len(usaved), interactive>>
          ELSE <<"none">>
+    [] ScenKind = "macrofin" ->
+         \* finalize by what the configuration says about macros: definitions and every way of referring to them
+         IF out.op = "Finalize"
+         THEN <<"fin", out.status, { <<cfg[i].scope, cfg[i].sel, cfg[i].param, cfg[i].val>> : i \in 1..Len(cfg) }>>
+         ELSE <<"none">>
     [] ScenKind = "const" ->
          \* a %name parsed into the configuration, by outcome, by the constants that exist and by what earlier
          \* %name parses left in the store (so: the same abbreviation parsed before and after further definitions)
